@@ -638,6 +638,11 @@ func (s *BgpServer) prePolicyFilterpath(peer *peer, path, old *table.Path) (*tab
 		}
 		if table.CanImportToVrf(vrf, path) {
 			path = path.ToLocal()
+		} else if old != nil && table.CanImportToVrf(vrf, old) {
+			// the route no longer matches the import targets, the one it
+			// replaces did and was advertised: withdraw that
+			path = old.ToLocal().Clone(true)
+			old = nil
 		} else {
 			return nil, nil, true
 		}
